@@ -125,6 +125,82 @@ def _not_on_the_way(pl, cls):
     return tuple(sorted(called - on_way))
 
 
+def pipe_end_closed_once(ctx, rule):
+    """shared with C06: a stale second close of a recycled descriptor number hits somebody else's capture pipe"""
+    pp = ctx.repo.module(PP)
+
+    def lock_sections(fn):
+        """statement containers that run with the channel's lock held: bodies of `with <lock>:` and try-bodies whose
+        finally releases a lock that was acquired just before (the lock may be held through a local alias)"""
+        ldefs = df.all_defs(fn)
+        locks = {"self._lock"} | {n_ for n_, ds_ in ldefs.items() if ds_ and all(d_.value is not None and unparse(d_.value) == "self._lock" for d_ in ds_)}
+        out = []
+        for n in walk_local(fn):
+            if isinstance(n, ast.With) and any(unparse(it.context_expr) in locks for it in n.items):
+                out.append(n.body)
+            elif isinstance(n, ast.Try) and n.finalbody and any(isinstance(c, ast.Call) and isinstance(c.func, ast.Attribute) and c.func.attr == "release" and unparse(c.func.value) in locks for b in n.finalbody for c in ast.walk(b)):
+                par = getattr(n, "_xv_parent", None)
+                sib = getattr(par, "body", []) if par is not None else []
+                i = next((k for k, x in enumerate(sib) if x is n), None)
+                if i and isinstance(sib[i - 1], ast.Expr) and isinstance(sib[i - 1].value, ast.Call) and isinstance(sib[i - 1].value.func, ast.Attribute) and sib[i - 1].value.func.attr == "acquire" and unparse(sib[i - 1].value.func.value) in locks:
+                    out.append(n.body)
+        return out
+
+    def in_section(node, sec):
+        return any(node is x or lexically_inside(node, x) for x in sec)
+
+    for name, field in (("close_writer", "self._write_fd"), ("close_reader", "self._read_fd")):
+        fn = flat(ctx, pp.func(f"PipeChannel.{name}"), 2)
+        from ..engine.loader import set_parents as _sp
+
+        _sp(fn)
+        fcfg = CFG(fn)
+        fdefs = df.all_defs(fn)
+        secs = lock_sections(fn)
+
+        def bound(d):
+            """expression a definition binds (element of the tuple for `a, b = x, y`)"""
+            if d.kind == "unpack" and isinstance(d.value, (ast.Tuple, ast.List)) and d.index is not None and d.index < len(d.value.elts):
+                return d.value.elts[d.index]
+            return d.value
+
+        def origins(nm, depth=6, seen=()):
+            """(definition, bound expression, names on the way) triples a local's value comes from, through plain copies
+            (helper parameters, returned locals)"""
+            out_ = []
+            for d in fdefs.get(nm, []):
+                b = bound(d)
+                if isinstance(b, ast.Name) and b.id not in seen and depth > 0 and fdefs.get(b.id):
+                    out_ += [(d2, b2, via | {nm}) for d2, b2, via in origins(b.id, depth - 1, seen + (nm,))]
+                else:
+                    out_.append((d, b, {nm}))
+            return out_
+
+        clear_defs = [d for d in fdefs.get(field, []) if bound(d) is not None and isinstance(bound(d), ast.Constant) and bound(d).value is None]
+        clear = [n for d in clear_defs for n in fcfg.nodes_of(d.stmt)]
+        osc = [n for n in fcfg.nodes if n.kind == "stmt" and any(call_name(c) == "os.close" for c in calls_in(n.ast)) and not getattr(n.ast, "_xv_call_marker", False)]
+        locked = bool(clear_defs) and all(any(in_section(d.stmt, sec) for sec in secs) for d in clear_defs)
+        ok = bool(clear) and bool(osc) and locked and all(fcfg.dominated(o, lambda m_: m_ in clear) for o in osc)
+        ctx.ob(rule, f"{PP}:PipeChannel.{name}", f"{field} is cleared under the lock before os.close (a second call finds None: idempotent, no double close of a reused fd)", ok, key=f"{name}|clear-before-close", where=loc(fn))
+        arg_ok = guard_ok = atomic = bool(osc)
+        for o in osc:
+            for c in calls_in(o.ast):
+                if call_name(c) != "os.close":
+                    continue
+                a0 = c.args[0] if c.args else None
+                org = origins(a0.id) if isinstance(a0, ast.Name) else []
+                arg_ok = arg_ok and bool(org) and all(b is not None and unparse(b) == field for _, b, _v in org)
+                chain = set().union(*[via for _, _, via in org]) | ({a0.id} if isinstance(a0, ast.Name) else set())
+                facts = nfacts(fcfg, o)
+                guard_ok = guard_ok and a0 is not None and any((f"{nm_} is None", False) in facts for nm_ in chain)
+                # take-ownership must be one critical section: the value that will be closed is read inside the very locked
+                # block that clears the field - two closers that both read before either clears both call os.close on the number
+                for d, _, _v in org:
+                    atomic = atomic and any(in_section(d.stmt, sec) and any(in_section(cd.stmt, sec) for cd in clear_defs) for sec in secs)
+        ctx.ob(rule, f"{PP}:PipeChannel.{name}", "os.close receives the value read from the field and only if it is not None", arg_ok and guard_ok, key=f"{name}|close-arg", where=loc(fn))
+        ctx.ob(rule, f"{PP}:PipeChannel.{name}", f"the value handed to os.close is read from {field} inside the same locked block that clears it (read-and-clear is atomic)", atomic, key=f"{name}|read-outside-lock", where=loc(fn))
+
+
 def check(ctx):
     ctx.not_decided += [
         "actual numbers of fds / threads / children after a command (run-time state)",
@@ -343,78 +419,8 @@ def check(ctx):
     ctx.ob("R4", f"{PX}:ProcProxy.wait", "every handle opened for the alias (owned_handles) is closed before a normal return", ok, key="ProcProxy.wait|owned-handles", where=loc(pw))
 
     # ------------------------------------------------------------------ R5
+    pipe_end_closed_once(ctx, "R5")
     pp = ctx.repo.module(PP)
-
-    def lock_sections(fn):
-        """statement containers that run with the channel's lock held: bodies of `with <lock>:` and try-bodies whose
-        finally releases a lock that was acquired just before (the lock may be held through a local alias)"""
-        ldefs = df.all_defs(fn)
-        locks = {"self._lock"} | {n_ for n_, ds_ in ldefs.items() if ds_ and all(d_.value is not None and unparse(d_.value) == "self._lock" for d_ in ds_)}
-        out = []
-        for n in walk_local(fn):
-            if isinstance(n, ast.With) and any(unparse(it.context_expr) in locks for it in n.items):
-                out.append(n.body)
-            elif isinstance(n, ast.Try) and n.finalbody and any(isinstance(c, ast.Call) and isinstance(c.func, ast.Attribute) and c.func.attr == "release" and unparse(c.func.value) in locks for b in n.finalbody for c in ast.walk(b)):
-                par = getattr(n, "_xv_parent", None)
-                sib = getattr(par, "body", []) if par is not None else []
-                i = next((k for k, x in enumerate(sib) if x is n), None)
-                if i and isinstance(sib[i - 1], ast.Expr) and isinstance(sib[i - 1].value, ast.Call) and isinstance(sib[i - 1].value.func, ast.Attribute) and sib[i - 1].value.func.attr == "acquire" and unparse(sib[i - 1].value.func.value) in locks:
-                    out.append(n.body)
-        return out
-
-    def in_section(node, sec):
-        return any(node is x or lexically_inside(node, x) for x in sec)
-
-    for name, field in (("close_writer", "self._write_fd"), ("close_reader", "self._read_fd")):
-        fn = flat(ctx, pp.func(f"PipeChannel.{name}"), 2)
-        from ..engine.loader import set_parents as _sp
-
-        _sp(fn)
-        fcfg = CFG(fn)
-        fdefs = df.all_defs(fn)
-        secs = lock_sections(fn)
-
-        def bound(d):
-            """expression a definition binds (element of the tuple for `a, b = x, y`)"""
-            if d.kind == "unpack" and isinstance(d.value, (ast.Tuple, ast.List)) and d.index is not None and d.index < len(d.value.elts):
-                return d.value.elts[d.index]
-            return d.value
-
-        def origins(nm, depth=6, seen=()):
-            """(definition, bound expression, names on the way) triples a local's value comes from, through plain copies
-            (helper parameters, returned locals)"""
-            out_ = []
-            for d in fdefs.get(nm, []):
-                b = bound(d)
-                if isinstance(b, ast.Name) and b.id not in seen and depth > 0 and fdefs.get(b.id):
-                    out_ += [(d2, b2, via | {nm}) for d2, b2, via in origins(b.id, depth - 1, seen + (nm,))]
-                else:
-                    out_.append((d, b, {nm}))
-            return out_
-
-        clear_defs = [d for d in fdefs.get(field, []) if bound(d) is not None and isinstance(bound(d), ast.Constant) and bound(d).value is None]
-        clear = [n for d in clear_defs for n in fcfg.nodes_of(d.stmt)]
-        osc = [n for n in fcfg.nodes if n.kind == "stmt" and any(call_name(c) == "os.close" for c in calls_in(n.ast)) and not getattr(n.ast, "_xv_call_marker", False)]
-        locked = bool(clear_defs) and all(any(in_section(d.stmt, sec) for sec in secs) for d in clear_defs)
-        ok = bool(clear) and bool(osc) and locked and all(fcfg.dominated(o, lambda m_: m_ in clear) for o in osc)
-        ctx.ob("R5", f"{PP}:PipeChannel.{name}", f"{field} is cleared under the lock before os.close (a second call finds None: idempotent, no double close of a reused fd)", ok, key=f"{name}|clear-before-close", where=loc(fn))
-        arg_ok = guard_ok = atomic = bool(osc)
-        for o in osc:
-            for c in calls_in(o.ast):
-                if call_name(c) != "os.close":
-                    continue
-                a0 = c.args[0] if c.args else None
-                org = origins(a0.id) if isinstance(a0, ast.Name) else []
-                arg_ok = arg_ok and bool(org) and all(b is not None and unparse(b) == field for _, b, _v in org)
-                chain = set().union(*[via for _, _, via in org]) | ({a0.id} if isinstance(a0, ast.Name) else set())
-                facts = nfacts(fcfg, o)
-                guard_ok = guard_ok and a0 is not None and any((f"{nm_} is None", False) in facts for nm_ in chain)
-                # take-ownership must be one critical section: the value that will be closed is read inside the very locked
-                # block that clears the field - two closers that both read before either clears both call os.close on the number
-                for d, _, _v in org:
-                    atomic = atomic and any(in_section(d.stmt, sec) and any(in_section(cd.stmt, sec) for cd in clear_defs) for sec in secs)
-        ctx.ob("R5", f"{PP}:PipeChannel.{name}", "os.close receives the value read from the field and only if it is not None", arg_ok and guard_ok, key=f"{name}|close-arg", where=loc(fn))
-        ctx.ob("R5", f"{PP}:PipeChannel.{name}", f"the value handed to os.close is read from {field} inside the same locked block that clears it (read-and-clear is atomic)", atomic, key=f"{name}|read-outside-lock", where=loc(fn))
     for name in ("open_writer", "open_reader"):
         fn = flat(ctx, pp.func(f"PipeChannel.{name}"), 2)
         opens = [c for c in calls_in(fn) if call_name(c) == "open" and not getattr(stmt_of(c), "_xv_call_marker", False)]
